@@ -102,6 +102,45 @@ def run(tier, seed):
                                  'added, although every compound has an explicit prefix',
                                  {'pattern': pat, 'namespaces': base, 'default_added': d, 'markup': matchcheck.markup_of(sc), 'tree': sc.label})
                     break
+    # the prefix map is read when the selector is compiled: what the caller does to its own dictionary afterwards changes nothing
+    for sc in campaign.build(rnd, 'ns', n // 3, 0, depth=1):
+        top = sc.top
+        pools = gen_selectors.pools_from_soup(top)
+        pools.pop('texts', None)
+        used = sorted({e.namespace for e in top.find_all(True) if getattr(e, 'namespace', None)}) or ['urn:x']
+        orig = {'n': rnd.choice(used), 'k': rnd.choice(used + ['http://www.w3.org/1999/xlink', 'http://www.w3.org/XML/1998/namespace'])}
+        if rnd.random() < 0.3:
+            orig[''] = rnd.choice(used)
+        ag = gen_selectors.AGen(rnd, prefixes=['n', 'k'], feats=('core', 'ns'), **pools)
+        for _ in range(3):
+            pat = rnd.choice(['n|*', 'k|*', '[k|' + sv.escape(rnd.choice(pools['attrs'])).split('|')[-1] + ']', sv.escape(rnd.choice(pools['names'])),
+                              'n|' + sv.escape(rnd.choice(pools['names'])), '*', ag.selector(1)[0], ag.selector(1)[0]])
+            mine = dict(orig)
+            with warnings.catch_warnings():
+                warnings.simplefilter('ignore')
+                try:
+                    c = sv.compile(pat, mine)
+                    r0 = [id(e) for e in c.select(top)]
+                    mine['n'] = rnd.choice(used + ['urn:nowhere'])
+                    mine.pop('k', None)
+                    if '' in mine:
+                        del mine['']
+                    else:
+                        mine[''] = rnd.choice(used)
+                    r1 = [id(e) for e in c.select(top)]
+                    m1 = [id(e) for e in sc.elements if c.match(e)]
+                    r2 = [id(e) for e in sv.select(pat, top, namespaces=dict(orig))]
+                    kept = dict(c.namespaces) if c.namespaces is not None else None
+                    sv.purge()
+                except Exception:
+                    ck.notes['skipped_mutation_raise'] = ck.notes.get('skipped_mutation_raise', 0) + 1
+                    continue
+            ck.count(('map-read-at-compile-time', len(r0) > 0, '|' in pat))
+            if not (r0 == r1 == r2) or kept != orig or [i for i in m1 if i in set(r0)] != [i for i in r0 if i in set(m1)]:
+                ck.violation(f'{pat!r} compiled with namespaces {orig!r} selects {len(r0)} element(s), but {len(r1)} after the caller changed its own '
+                             f'dictionary to {mine!r} (a fresh compile with the original map: {len(r2)}; the compiled object now reports {kept!r})',
+                             {'pattern': pat, 'namespaces_at_compile_time': orig, 'callers_dict_afterwards': mine,
+                              'compiled_namespaces_now': kept, 'markup': matchcheck.markup_of(sc), 'tree': sc.label})
     recs = matchcheck.run_corr(ck, scs)
     C01.oracle(ck, scs, recs)
     return ck.finish(
